@@ -413,6 +413,11 @@ class Exec:
                 continue
             kk = self.ev(k, st)
             if not isinstance(kk, StrV):
+                if len(e.keys) == 1 and is_z3(lit(kk)):
+                    from . import objects
+                    ref = objects.new_symdict(self, st, name="dictlit")
+                    objects.symdict_store(self, st, ref, kk, self.ev(v, st), e)
+                    return ref
                 raise Undecided("dict literal with non-string key")
             items[kk.s] = self.ev(v, st)
         return DictV(items)
@@ -451,6 +456,12 @@ class Exec:
         from . import objects
         if isinstance(v, objects.SObj):
             return objects.sobj_getattr(self, st, v, attr, node)
+        if isinstance(v, objects.SDRef):
+            if attr == "keys":
+                return FuncV(lambda ex, s, args, kw, nd, _v=v: objects.symdict_keys(ex, s, _v), "dict.keys")
+            if attr == "items":
+                return FuncV(lambda ex, s, args, kw, nd, _v=v: objects.symdict_items(ex, s, _v), "dict.items")
+            raise Undecided(f"dict.{attr} on a symbolic dict")
         if isinstance(v, objects.SLRef):
             if attr == "append":
                 return FuncV(lambda ex, s, args, kw, nd, _v=v: (objects.symlist_append(ex, s, _v, args[0], nd), NONE)[1], "list.append")
@@ -680,6 +691,10 @@ class Exec:
         from . import objects
         if isinstance(a, objects.SObj) and isinstance(b, objects.SObj):
             return a.id == b.id
+        if isinstance(a, objects.SLRef) and isinstance(b, objects.SLRef):
+            return z3.BoolVal(a.sid == b.sid)
+        if isinstance(a, LRef) and isinstance(b, LRef):
+            return z3.BoolVal(a.sid == b.sid)
         raise Undecided("'is' between these values")
 
     def struct_eq(self, a, b):
@@ -749,6 +764,8 @@ class Exec:
             d = st.heap[v.sid]
             i = self.norm_index(self.ev(sl, st), d.length)
             return objects.symlist_get(self, st, v, i, e)
+        if isinstance(v, objects.SDRef):
+            return objects.symdict_read(self, st, v, self.ev(sl, st), e)
         if isinstance(v, SeqV):
             if isinstance(sl, ast.Slice):
                 raise Undecided("slice of symbolic sequence")
@@ -845,7 +862,7 @@ class Exec:
         return self.alloc_arr(st, (d.shape[1],), self.lam1(lambda c: self.sel2(d, r, c)), d.elem, d.owner, view_of=v.sid)
 
     # ---- calls
-    SPEC_FORMS = ("forall", "exists", "implies", "iff", "old", "ite")
+    SPEC_FORMS = ("forall", "exists", "implies", "iff", "old", "ite", "forall_real")
 
     def ev_Call(self, e, st):
         if self.spec_mode and isinstance(e.func, ast.Name) and e.func.id in self.SPEC_FORMS:
@@ -952,6 +969,12 @@ class Exec:
                 if name == "forall":
                     return z3.ForAll(zs, z3.Implies(rng, body))
                 return z3.Exists(zs, z3.And(rng, body))
+            if name == "forall_real":
+                nm = t.args[0].id
+                st2 = st.fork()
+                z = z3.Real(nm + "?")
+                st2.env[nm] = z
+                return z3.ForAll([z], lit(self.spec_ev(t.args[1], st2)))
             if name == "implies":
                 a = z3.simplify(truth(self.spec_ev(t.args[0], st)))
                 if z3.is_false(a):          # lazy: the consequent may be ill-typed when the antecedent is false (None patterns)
@@ -973,7 +996,16 @@ class Exec:
                 a, b = coerce(self.spec_ev(t.args[1], st), self.spec_ev(t.args[2], st))
                 return z3.If(c, a, b)
         if isinstance(t, ast.BoolOp):
-            vs = [truth(self.spec_ev(v, st)) for v in t.values]
+            # short-circuit like Python: later operands may be ill-defined once an earlier one decides (e.g. `_k == 0 or <uses a loop local>`)
+            vs = []
+            for v in t.values:
+                x = truth(self.spec_ev(v, st))
+                xs = z3.simplify(x)
+                if isinstance(t.op, ast.Or) and z3.is_true(xs):
+                    return z3.BoolVal(True)
+                if isinstance(t.op, ast.And) and z3.is_false(xs):
+                    return z3.BoolVal(False)
+                vs.append(x)
             return z3.And(*vs) if isinstance(t.op, ast.And) else z3.Or(*vs)
         if isinstance(t, ast.UnaryOp) and isinstance(t.op, ast.Not):
             return z3.Not(truth(self.spec_ev(t.operand, st)))
@@ -1049,6 +1081,10 @@ class Exec:
 
     def assign(self, tgt, val, st, node):
         if isinstance(tgt, ast.Name):
+            sdn = getattr(self.k, "sym_dicts", ()) if self.k is not None else ()
+            if tgt.id in sdn and isinstance(val, DictV) and not val.items:
+                from . import objects
+                val = objects.new_symdict(self, st, name=tgt.id)
             sl = getattr(self.k, "sym_lists", {}) if self.k is not None else {}
             if tgt.id in sl and isinstance(val, LRef) and not st.heap[val.sid].items:
                 from . import objects
@@ -1078,6 +1114,10 @@ class Exec:
             base = self.ev(tgt.value, st)
             if isinstance(base, ARef):
                 return self.store_arr(st, base, tgt.slice, val, node)
+            from . import objects
+            if isinstance(base, objects.SDRef):
+                objects.symdict_store(self, st, base, self.ev(tgt.slice, st), val, node)
+                return
             if isinstance(base, DictV):
                 k = self.ev(tgt.slice, st)
                 if not isinstance(k, StrV):
@@ -1473,6 +1513,9 @@ class Exec:
             if isinstance(v, objects.SLRef):
                 objects.symlist_havoc(self, st, v, nm)
                 continue
+            if isinstance(v, objects.SDRef):
+                objects.symdict_havoc(self, st, v, nm)
+                continue
             if isinstance(v, objects.SObj):
                 if nm in names and nm not in stores:
                     st.env[nm] = objects.SObj(v.cls, self.fresh(nm, I), v.owner)
@@ -1558,9 +1601,9 @@ class Exec:
             if isinstance(v, DictV):
                 items = [Tup((StrV(k), x)) for k, x in v.items.items()]
                 return z3.IntVal(len(items)), None, items
-            hook = getattr(v, "items_seq", None)
-            if hook is not None:
-                return as_seq(hook)
+            from . import objects
+            if isinstance(v, objects.SDRef):
+                return as_seq(objects.symdict_items(self, st, v))
             raise Undecided("items() of symbolic dict")
         return as_seq(self.ev(it, st))
 
@@ -1595,6 +1638,7 @@ class Exec:
             raise Undecided(f"loop at line {n.lineno} (ordinal {lid}) has no invariant in the contract")
         invs = self.k.loops[lid]
         kname = f"_k{lid}"
+        saved_obls0, saved_rets0, saved_cover0 = len(self.obls), len(self.returns), len(self.cover)
         names, stores, aug_only = self.assigned(n.body)
         tnames = {y.id for y in ast.walk(n.target) if isinstance(y, ast.Name)}
         mod_names = names - tnames
@@ -1608,6 +1652,34 @@ class Exec:
             except Undecided as ex:
                 raise Undecided(f"invariant L{lid}#{j} cannot be evaluated at loop entry: {ex}")
             self.add_obl(f"inv-init[L{lid}#{j}@{n.lineno}]", "inv-init", st0, g, n.lineno, inv)
+        # --- names first bound inside the loop body (e.g. `majority_dt`): discover them with a dry run of the body (obligations discarded) and
+        # pre-bind them to arbitrary values so that invariants may mention them, guarded by `_k == 0 or ...`
+        if any(nm not in st.env for nm in mod_names) and not getattr(self, "_born_pass", False):
+            so, sr, sc = len(self.obls), len(self.returns), len(self.cover)
+            born = {}
+            try:
+                dry = st.fork()
+                self.havoc(dry, mod_names & set(st.env), stores & set(st.env), (), aug_only)
+                kk = self.fresh(kname, I)
+                dry.env[kname] = kk
+                dry.env["_k"] = kk
+                dry.pc += [kk >= 0, kk < count]
+                self.assign(n.target, getter(dry, kk), dry, n)
+                for e in self.run(n.body, dry):
+                    for nm in mod_names:
+                        v_ = e.env.get(nm)
+                        if nm not in st.env and v_ is not None and not isinstance(v_, (ARef, ORef, LRef, Tup, StrV, NoneV, DictV)) and is_z3(lit(v_)):
+                            born.setdefault(nm, lit(v_).sort())
+            except Undecided:
+                born = {}
+            finally:
+                del self.obls[so:]
+                del self.returns[sr:]
+                del self.cover[sc:]
+            if born:
+                st = st.fork()
+                for nm, sort_ in born.items():
+                    st.env[nm] = self.fresh(nm + "_unbound", sort_)
         # --- arbitrary iteration (with sort promotion retry)
         promote = set()
         for attempt in range(3):
